@@ -11,6 +11,9 @@ package main
 //                a panic or a loadable different meaning is a violation
 //   const        constant spellings (named constants, concatenation, arithmetic, every literal syntax) at every
 //                argument position outside helper bodies give the IR of the plain literal
+//   helperconst, stmts, group-model, retype: see c18_helpers.go (constants of every spelling wherever a helper can
+//                carry them; statement shapes of a rule group; both against the hand-inlined file; the Lean models
+//                of the statement loop and of the literal patch against the code)
 
 import (
 	"bytes"
@@ -181,13 +184,15 @@ func (g *c18Gen) atom(ps []c18Param, matcher string) string {
 		if len(strs) > 0 && r.Intn(3) != 0 {
 			return strs[r.Intn(len(strs))]
 		}
-		return []string{`"int"`, "`string`", `"a|b"`, `"quo\"te"`, `""`}[r.Intn(5)]
+		return []string{`"int"`, "`string`", `"a|b"`, `"quo\"te"`, `""`, `"\x69nt"`, `"\151nt"`, `"\u0069nt"`, `("int")`, "strConst"}[r.Intn(10)]
 	}
 	in := func() string {
 		if len(ints) > 0 && r.Intn(3) != 0 {
 			return ints[r.Intn(len(ints))]
 		}
-		return []string{"0", "10", "0x10", "1_000", "-1", "1+2", "'a'", "2.0"}[r.Intn(8)]
+		pool := []string{"0", "10", "0x10", "1_000", "-1", "1+2", "'a'", "2.0", "010", "0777", "0o17", "0O7", "0b101", "0X1F", "0_7", "0x_f", "(8)", "(017)",
+			"00", "intConst", "+5", "'\\n'", "'\\101'", "9223372036854775807", "1e2", "int(7)"}
+		return pool[r.Intn(len(pool))]
 	}
 	for tries := 0; tries < 20; tries++ {
 		switch r.Intn(16) {
@@ -292,7 +297,8 @@ func (g *c18Gen) arg(typ string) string {
 	case "string":
 		return []string{`"int"`, "`a|b`", `("s")`, "strConst", `"quo\"te"`, `""`}[r.Intn(6)]
 	case "int":
-		return []string{"5", "0x10", "(7)", "intConst", "Const", "0", "1_0"}[r.Intn(7)]
+		pool := []string{"5", "0x10", "(7)", "intConst", "Const", "0", "1_0", "0777", "010", "0o10", "0b11", "'a'", "(0644)", "2.0", "0_1"}
+		return pool[r.Intn(len(pool))]
 	}
 	return []string{"m", "(m)"}[r.Intn(2)]
 }
@@ -429,7 +435,7 @@ type c18Loaded struct {
 
 // one file set and one source importer for all C18 loads (sequential): dsl is type-checked once
 var c18Fset = token.NewFileSet()
-var c18Imp = c05SrcImporterFor(c18Fset)
+var c18Imp = &memoImporter{inner: c05SrcImporterFor(c18Fset), pkgs: map[string]*types.Package{}}
 
 func c18Load(src string) (*c18Loaded, error) {
 	fset := c18Fset
@@ -510,7 +516,13 @@ func runC18(c *Ctx) error {
 		"method names, bodies over every connective with literals of every syntax, nested helper calls, closure-captured matcher, variadic and unnamed parameters) x call sites "+
 		"(m[\"x\"] in every parenthesisation and quoting, literals, named constants, unsafe arguments); each case: real localDefine+expandMacro vs the Lean model (tree equality of the "+
 		"expansion), and the property itself: ConvertFile IR of the helper group vs the harness-inlined group modulo Src/Line, or an error. Plus every constant spelling at "+
-		"every argument position. A case is non-trivial when the helper has a parameter; distinct by source text.", n)
+		"every argument position. Plus (helperconst) every spelling of an integer / string constant - decimal, legacy octal, 0o, 0x, 0b, digit separators, rune literals and escapes, "+
+		"negative, parenthesised, constant expressions, named/typed constants, float-spelled, conversions; interpreted, raw, escaped, concatenated strings - at %d constant-taking "+
+		"positions x 7 places a helper can carry it (body, closure, call-site argument, nested helper argument, nested helper body, under connectives, used twice), judged by the "+
+		"hand-inlined file; (stmts) %d statement-shape families of a rule group (re-assignment with =, var h = func, var h func + =, shadowing blocks, use before definition, chains of "+
+		"helpers, swapped parameter names, forward reference through a declared variable, local constants, aliases, multi-value definitions), judged by the file hand-inlined "+
+		"from Go's meaning of the group (lexical scopes, variables by reference), or a located error; (group-model, retype) the Lean models of the statement loop and of the "+
+		"literal patch against the code. A case is non-trivial when the helper has a parameter; distinct by source text.", n, len(c18Positions), len(c18StmtFamilies))
 
 	g := &c18Gen{r: hx.Rng(c.Seed, "c18-helpers"), res: res}
 	var cases []*c18Case
@@ -527,6 +539,15 @@ func runC18(c *Ctx) error {
 		return err
 	}
 	if err := c18ScopeSuite(c); err != nil {
+		return err
+	}
+	if err := c18HelperConstSuite(c); err != nil {
+		return err
+	}
+	if err := c18StmtSuite(c); err != nil {
+		return err
+	}
+	if err := c18RetypeSuite(c); err != nil {
 		return err
 	}
 	return c18ConvSuite(c, cases)
